@@ -1,5 +1,6 @@
 """C09 -- BioConsert is never worse than any of its starting points."""
 from .. import grids
+from ..framework import Model
 from . import algo_common as ac
 from .C08 import BIO, SCHEMES
 
@@ -19,6 +20,11 @@ BIO2 = BIO + ["Bio[BioCo]", "Bio{Copeland}", "BioValues[Borda]"]
 
 def _nt(rec):
     return rec["out"] == "consensus" and ac.n_elems(rec) >= 3
+
+
+def models(tier):
+    cfgs = ["book_uni5_3_1", "book_odd_3_1"] if tier == "quick" else ["book_uni5_3_1", "book_odd_3_1", "uni5_3_2", "thr_3_2"]
+    return [Model("BioScan", f"MC_BioScan_{c}.cfg", "the transcribed search never ends above its departure ranking (invariant NeverWorse: every move gains more than the threshold), from every departure ranking of every one-ranking dataset over 3 elements") for c in cfgs]
 
 
 def stages(tier, rng, only=None):
